@@ -6,6 +6,7 @@
 #include "util/utf8.hh"
 #include <unicode/unistr.h>
 #include <unicode/uchar.h>
+#include <unicode/normalizer2.h>
 #include <cstdlib>
 
 using U_ICU_NAMESPACE::UnicodeString;
@@ -37,11 +38,29 @@ int main() {
         u.toUTF8String(o);
         std::cout << "OK " << out(o) << "\n";
       } else if (t.size() == 2 && t[0] == "N") {
+        // ICU's NFKC itself (the model's environment function), NOT util::Normalize
+        std::string in = arg(t[1]);
+        UnicodeString u(UnicodeString::fromUTF8(U_ICU_NAMESPACE::StringPiece(in.data(), in.size())));
+        UErrorCode ec = U_ZERO_ERROR;
+        const U_ICU_NAMESPACE::Normalizer2 *n2 = U_ICU_NAMESPACE::Normalizer2::getNFKCInstance(ec);
+        UnicodeString r = n2->normalize(u, ec);
+        if (U_FAILURE(ec)) { std::cout << "EXC nfkc\n"; continue; }
+        std::string o;
+        r.toUTF8String(o);
+        std::cout << "OK " << out(o) << "\n";
+      } else if (t.size() == 2 && t[0] == "NU") {
+        // the code under test: util::Normalize, both overloads
         std::string in = arg(t[1]);
         UnicodeString u(UnicodeString::fromUTF8(U_ICU_NAMESPACE::StringPiece(in.data(), in.size()))), r;
         util::Normalize(u, r);
-        std::string o;
+        std::string o, o2;
         r.toUTF8String(o);
+        util::Normalize(util::StringPiece(in.data(), in.size()), o2);
+        std::cout << (o == o2 ? "OK " : "OVERLOADS-DIFFER ") << out(o) << "\n";
+      } else if (t.size() == 2 && t[0] == "LU") {
+        // the code under test: util::ToLower (UTF-8 API)
+        std::string in = arg(t[1]), o;
+        util::ToLower(util::StringPiece(in.data(), in.size()), o);
         std::cout << "OK " << out(o) << "\n";
       } else if (t.size() == 2 && t[0] == "S") {
         std::cout << "OK " << (u_isspace((UChar32)strtol(t[1].c_str(), NULL, 10)) ? 1 : 0) << "\n";
